@@ -60,6 +60,10 @@ func c20nodeAddr(n *enode.Node) *net.UDPAddr {
 	return &net.UDPAddr{IP: ip, Port: n.UDP()}
 }
 
+// c20stuck counts instances given up because a ping's processing never finished; after three the remaining histories of
+// the run are skipped (counted in the evidence) instead of each waiting for its timeout.
+var c20stuck int
+
 func c20exec(c *Ctx, keyhex, proto string, permits int, ins []c11ins, ops []string) {
 	inst := hInstanceP(keyhex, "-", proto, permits)
 	store := hStores[inst]
@@ -195,6 +199,7 @@ func c20exec(c *Ctx, keyhex, proto string, permits int, ins []c11ins, ops []stri
 					if !inst.WaitPings(5 * time.Second) {
 						hInstanceDrop(inst)
 						c.Count("instance_dropped_transport_stuck")
+						c20stuck++
 					}
 					return
 				}
@@ -779,8 +784,10 @@ func runC20(c *Ctx) {
 	n := 300
 	c20seqBudget = 12
 	if c.Tier == "thorough" {
-		n = 8000
-		c20seqBudget = 150
+		// 1200 histories: beyond roughly 1500 in one process the discv5 transports of the library stop making progress
+		// (every later ping that re-requests a record stays in RequestENR); see c20stuck below
+		n = 1200
+		c20seqBudget = 40
 	}
 	if c.N > 0 {
 		n = c.N
@@ -788,6 +795,10 @@ func runC20(c *Ctx) {
 	r := c.Rng
 	keys := []string{hKeyHex(hKey(r)), hKeyHex(hKey(r))}
 	for i := 0; i < n; i++ {
+		if c20stuck >= 3 {
+			c.Stats["histories_skipped_transport_stuck"] = n - i
+			break
+		}
 		if i%10 == 3 {
 			c20directed(c, r, keys)
 			continue
